@@ -44,6 +44,22 @@ precipitate phases on Al-Mg-Si):
 Training sets have <= 40 points; grids: linear/log composition axis, broadcast grid or paired points, 1..4 temperatures
 (single-axis training included), kernels cubic (default) / linear / thin-plate (all interpolating, normalised inputs).
 
+Seen on the unchanged tree (triaged as genuine, reproducers and one fix diff each in /verif/proposed_fixes/C20-*):
+  * diffusion model saved with recording off cannot be loaded (None stored as pickled object array; mech model=diffusion,
+    op=load, record=False, exc=ValueError)                                          -> C20-diffusion-load-without-recording
+  * untrained getTracerDiffusivity returns the backend's interdiffusivity (mech getter=getTracerDiffusivity, differs=shape)
+                                                                                    -> C20-untrained-tracer-returns-interdiffusivity
+  * trainInterfacialComposition(broadcast=True) with more than one temperature and more than one gExtra raises ValueError
+    (T tiled into a 2-D array; mech op=train, quantity=interfacialComposition, grid=multi_T x multi_g)
+                                                                                    -> C20-train-interfacial-composition-broadcast-grid
+  * fromJson of a multicomponent surrogate with trained diffusivity raises AttributeError in _fitDiffusivity (list.shape)
+                                                                                    -> C20-fromjson-multicomponent-diffusivity
+  * trained getInterdiffusivity (multicomponent) / getTracerDiffusivity (both) raise IndexError/AttributeError for the
+    documented float, (N,) and (e,) inputs (x.shape[1] of the raw argument)         -> C20-trained-diffusivity-getters-input-shape
+  With the five diffs applied the check is silent (quick seeds 0,1,2,3,7; thorough seeds 0,1).
+Harness note: the binary backend adds its 1 J/mol offset to the caller's gExtra array in place (C09); every call made by the
+monitors therefore receives its own copy of the argument arrays.
+
 Decisions where the statement is silent (NOT asserted, counted as information only):
   * what load() does to things that are not histories / state / distributions: the loaded population balance objects are
     new objects with default bin constraints and recording switched off (pbm_options_reset_by_load), the recorded PSD
